@@ -524,7 +524,7 @@ func avEqual(a, b AV) bool {
 		switch y := b.(type) {
 		case NilV:
 			return true
-		case *Sym, *Ptr, *SliceV, *Closure, *IfaceV, *MapV, *ExtFn, *SeqV, *StrDataV:
+		case *Sym, *Ptr, *SliceV, *Closure, *IfaceV, *MapV, *ExtFn, *SeqV, *StrDataV, *StorageV, *ReflectV:
 			_ = y
 			return false
 		}
@@ -581,7 +581,7 @@ func avEqual(a, b AV) bool {
 			}
 			return true
 		}
-	case *SliceV, *MapV, *Closure, *ExtFn, *SeqV, *StrDataV:
+	case *SliceV, *MapV, *Closure, *ExtFn, *SeqV, *StrDataV, *StorageV, *ReflectV:
 		if _, ok := b.(NilV); ok {
 			return false
 		}
